@@ -45,7 +45,9 @@ private def writeScript (s : String) (bound : Nat) : Option (List WCall) :=
   else none
 
 private def showWire (w : Wire) : String :=
-  "w=" ++ (if w.writes.isEmpty then "-" else String.intercalate "." (w.writes.map toHexField)) ++
+  "w=" ++ (match w.writes with
+    | [] => "-"
+    | first :: rest => String.intercalate "." (toHexField first :: rest.map (fun b => "#" ++ toString b.length))) ++
   " recv=" ++ toHexField w.received ++ " fl=" ++ toString w.flushes
 
 private def zeros19 : Bytes := List.replicate 19 48
